@@ -318,6 +318,8 @@ def run_case(case):
       if n == "body_invweight0":
         gm, rm = g.reshape(-1, 2), r.reshape(-1, 2)
         fb = ((np.abs(rm[:, 0]) < 1e-12) != (np.abs(rm[:, 1]) < 1e-12))  # exactly one component is zero in MuJoCo
+        # ... and MJWarp reports the non-zero component in both slots
+        fb &= np.abs(gm[:, 0] - gm[:, 1]) <= 1e-6 * np.maximum(1.0, np.abs(gm).max(axis=1))
         if fb.any():
           judge_el(rec, n + "_one_zero_component", gm[fb], rm[fb], allow, 0.0, scale=sc, sig=n + ":zero-component-replaced-by-the-other", ctx=ctx)
           rec.cover("body_invweight0_one_zero_component", int(fb.sum()))
@@ -327,9 +329,11 @@ def run_case(case):
       if n == "actuator_biasprm":
         gm, rm = g.reshape(mref.nu, -1), r.reshape(mref.nu, -1)
         dr = np.asarray(worlds[w].actuator_biasprm[:, 2] > 0) & (np.asarray(worlds[w].actuator_biastype) == 1) & (np.asarray(worlds[w].actuator_gainprm[:, 0]) == -np.asarray(worlds[w].actuator_biasprm[:, 1]))
+        rec.cover("dampratio_resolved", int(dr.sum()))
+        # classified mechanism: the resolved damping comes out (much) larger in magnitude than MuJoCo's
+        dr &= np.abs(gm[:, 2]) > np.abs(rm[:, 2])
         if dr.any():
           judge_el(rec, n + "_dampratio", gm[dr], rm[dr], allow, 0.0, scale=np.maximum(1.0, np.abs(rm[dr])), sig=n + ":dampratio", ctx=ctx)
-          rec.cover("dampratio_resolved", int(dr.sum()))
         if (~dr).any():
           judge_el(rec, n, gm[~dr], rm[~dr], allow, 0.0, scale=np.maximum(1.0, np.abs(rm[~dr])), sig=n, ctx=ctx)
         continue
